@@ -12,7 +12,7 @@ import (
 
 // struct types the generators use (registered by name so that replay files can rebuild values)
 type S2 struct {
-	X int    `json:"x"`
+	X int `json:"x"`
 	Y string
 }
 
@@ -20,11 +20,11 @@ type S1 struct {
 	Name   string `json:"name"`
 	Count  int
 	secret string
-	Tagged string  `json:"tag_only,omitempty"`
-	Inner  S2      `json:"inner"`
-	PInner *S2     `json:"pinner"`
-	hidden int     `json:"hid"`
-	Items  []int   `json:"items"`
+	Tagged string `json:"tag_only,omitempty"`
+	Inner  S2     `json:"inner"`
+	PInner *S2    `json:"pinner"`
+	hidden int    `json:"hid"`
+	Items  []int  `json:"items"`
 	Flag   bool
 	Ratio  float64 `json:"ratio"`
 	Small  int8    `json:"small"`
